@@ -39,6 +39,7 @@ func TestC05(t *testing.T) {
 		"a second Commit is run in a re-executed child process so that a runtime fatal error is observed as that child's exit")
 	defer finishProperty(st)
 	t.Run("commit-twice", func(t *testing.T) { commitTwice(t, st) })
+	t.Run("shared-handle", func(t *testing.T) { c05SharedBatch(t, st) })
 	t.Run("random", func(t *testing.T) {
 		checkCases(t, st, func(t *rapid.T) {
 			runHistoryCase(t, "C05", c05Profile, c05NonTrivial)
